@@ -66,7 +66,15 @@ var (
 func vpResetJose() {
 	vpParseCalls, vpSigAlgs, vpKeyAlgs, vpEncAlgs = 0, nil, nil, nil
 	vpTokKind, vpTokSignedBy, vpTokEncBy, vpTokAlgs = 0, 0, 0, nil
-	vpClaimsKeyLog, vpIdpToken, vpIdpCalls, vpNowCalls = nil, "", 0, 0
+	vpClaimsKeyLog, vpIdpToken, vpIdpCalls = nil, "", 0
+	// the clock keeps running across harness set-up: the presentation happens at vpCurTime, which is
+	// not before anything the package did at initialisation
+	if !vpInitCaptured {
+		vpInitCaptured, vpInitLast = true, vpLastNow // whatever package initialisation asked the clock
+	}
+	vpLastNow = vpInitLast
+	vpNowCalls = 0
+	vpCurTime = vpNow().Unix()
 	vpTokIssuer, vpTokSubject, vpTokExp, vpTokNbf, vpTokIat = "", "", nil, nil, nil
 	vpTokCustom = customClaims{}
 	vpTokClaimsMade = false
@@ -288,10 +296,14 @@ func vpSymClaims(n int) {
 		vpTokIssuer = "rdpgw"
 	case 1:
 		vpTokIssuer = vpStringN("issuer", 5)
+		vpAssume(vpTokIssuer[0] >= 0x80)
 	case 2:
 		vpTokIssuer = ""
 	}
 	vpTokSubject = vpStringN("subject", n)
+	for i := 0; i < len(vpTokSubject); i++ {
+		vpAssume(vpTokSubject[i] >= 0x80) // cannot coincide with the fixed text of an error message
+	}
 	vpTokExp = vpSymDate("exp")
 	vpTokNbf = vpSymDate("nbf")
 	vpTokIat = vpSymDate("iat")
@@ -334,12 +346,21 @@ var (
 
 // time.Now: arbitrary instant between 2001 and 2100, non-decreasing.
 var vpLastNow int64
+var vpInitLast int64
+var vpInitCaptured bool
+var vpCurTime int64 // the instant at which the harness presents the token (<= every later time.Now)
 
 func vpNow() time.Time {
+	if !vpSymbolic() && vpCur == nil {
+		// native build, package initialisation (no input vector yet)
+		vpNowCalls++
+		vpLastNow = 978307200
+		return time.Unix(vpLastNow, 0)
+	}
 	vpNowCalls++
 	s := int64(vpU64("now" + vpItoa(vpNowCalls)))
 	vpAssume(s >= 978307200 && s <= 4102444800)
-	if vpNowCalls > 1 {
+	if vpNowCalls > 1 || vpLastNow != 0 {
 		vpAssume(s >= vpLastNow)
 	}
 	vpLastNow = s
